@@ -205,8 +205,13 @@ def validate(ctx, gwy, meta: dict[str, Any]) -> dict[str, Any] | None:
 
     try:
         schema = gwy.schema
-    except Exception:  # noqa: BLE001  (C13's subject)
+    except Exception as err:  # noqa: BLE001  (also C13's subject: a schema that cannot be reported cannot be saved)
         ctx.count("schema.view_raised")
+        ctx.violate(
+            f"C15|schema-raises|{type(err).__name__}|{innermost_lib_frame(err)}",
+            "the gateway's schema could not be obtained (so it can be neither saved nor fed back)",
+            {"error": repr(err)[:200], "history": meta},
+        )
         return None
     ctx.count("schemas.validated")
     try:
@@ -429,7 +434,7 @@ def run(ctx) -> None:
         harness.reset_transport_globals()
 
         async def go(loop, h=h, stack=stack, eavesdrop=eavesdrop, trial=trial, max_zones=max_zones):
-            with clocks_patched(entity_dt=(stack == "port")):
+            with clocks_patched(entity_dt=(stack == "port")), harness.on_demand_write_spacer():
                 await run_history(loop, ctx, h, stack, eavesdrop, max_zones, trial)
 
         try:
@@ -457,7 +462,7 @@ def replay(data: dict[str, Any]) -> int:
         harness.reset_transport_globals()
 
         async def go(loop, h=h, meta=meta, ctx=ctx):
-            with clocks_patched(entity_dt=(meta["stack"] == "port")):
+            with clocks_patched(entity_dt=(meta["stack"] == "port")), harness.on_demand_write_spacer():
                 await run_history(loop, ctx, h, meta["stack"], meta["eavesdrop"], meta["max_zones"], 1)
 
         vloop.run(go)
